@@ -7,7 +7,7 @@ from .. import common
 def run_par(prop, cases, jobs=None, timeout=3000, group_key=None):
     os.makedirs(common.CASES, exist_ok=True)
     if jobs is None:
-        jobs = int(os.environ.get("VERIF_E2E_JOBS", "8"))
+        jobs = int(os.environ.get("VERIF_E2E_JOBS", "12"))
     n = max(1, min(jobs, len(cases)))
     if group_key is None:
         shards = [cases[i::n] for i in range(n)]
